@@ -129,12 +129,16 @@ struct Run {
         return r;
     }
     std::string pending_out;
+    std::vector<BlockParameters> mybps;         // mirror of the exporter's parameter sets (for blocks the application keeps itself)
+    std::unique_ptr<CdnsBlock> ext;             // a block used directly through the CdnsBlock API
 
     void run(const json& h) {
         comp = h.value("comp", "none");
         outkind = h.value("out", "file");
         tr->emit({{"e", "R"}, {"comp", comp}, {"out", outkind}, {"preamble", h["preamble"]}});
         FilePreamble fp = vr::preamble_in(h["preamble"]);
+        mybps = fp.m_block_parameters;
+        ext.reset(new CdnsBlock(mybps[0], 0));
         open_first(fp);
         for (auto& op : h["ops"]) {
             std::string o = op["op"];
@@ -149,10 +153,18 @@ struct Run {
                 else if (o == "mm") ret = exp->buffer_mm(vr::mm_in(op["r"]), st);
                 else if (o == "wb") ret = exp->write_block();
                 else if (o == "rot") ret = rotate(op.value("export", false));
-                else if (o == "addbp") { BlockParameters bp = vr::bp_in(op["bp"]); ret = exp->add_block_parameters(bp); }
+                else if (o == "addbp") { BlockParameters bp = vr::bp_in(op["bp"]); ret = exp->add_block_parameters(bp); mybps.push_back(bp); }
                 else if (o == "setbp") ret = exp->set_active_block_parameters(static_cast<index_t>(op["i"].get<uint64_t>())) ? 1 : 0;
                 else if (o == "counts") ret = 0;
-                else if (o == "editbp") { exp->get_active_block_parameters_ref() = vr::bp_in(op["bp"]); ret = 0; }
+                else if (o == "editbp") { exp->get_active_block_parameters_ref() = vr::bp_in(op["bp"]); mybps[exp->get_active_block_parameters()] = vr::bp_in(op["bp"]); ret = 0; }
+                // ---- a block the application keeps itself, filled through the generic CdnsBlock API
+                else if (o == "xnew") { index_t i = static_cast<index_t>(op["i"].get<uint64_t>()); ext.reset(new CdnsBlock(mybps.at(i), i)); ret = 0; }
+                else if (o == "xset") { index_t i = static_cast<index_t>(op["i"].get<uint64_t>()); ret = ext->set_block_parameters(mybps.at(i), i) ? 1 : 0; }
+                else if (o == "xclear") { ext->clear(); ret = 0; }
+                else if (o == "xqr") ret = ext->add_question_response_record(vr::qr_in(op["r"]), st) ? 1 : 0;
+                else if (o == "xaec") ret = ext->add_address_event_count(vr::aec_in(op["r"]), st) ? 1 : 0;
+                else if (o == "xmm") ret = ext->add_malformed_message(vr::mm_in(op["r"]), st) ? 1 : 0;
+                else if (o == "xwb") ret = exp->write_block(*ext);
                 else if (o == "wbx") {
                     // a block the application builds directly with the raw add_* API and hands to write_block(block)
                     index_t bpi = static_cast<index_t>(op["bpi"].get<uint64_t>());
@@ -169,6 +181,8 @@ struct Run {
             }
             ev["ret"] = ret;
             counters(ev);
+            ev["xcnt"] = {{"items", ext->get_item_count()}, {"qr", ext->get_qr_count()}, {"aec", ext->get_aec_count()},
+                          {"mm", ext->get_mm_count()}, {"bpi", ext->get_block_parameters_index()}};
             tr->emit(ev);
             if (!pending_out.empty()) emit_out("rot", pending_out);
         }
